@@ -507,7 +507,7 @@ ghost sync_hdr Bool
 
 func litestream.(*DB).sync(db, ctx, checkpointing, exec, info, maxSyncWALBytes) (result, err)
   requires db != nil && exec != nil && !pub_renamed && !sync_hdr && pm_commitOff == 0 && !pm_lastCommit
-  requires 32 <= info.offset && info.offset <= 4611686018427387904 && exec.pos.TXID < 9223372036854775807
+  assumes 32 <= info.offset && info.offset <= 4611686018427387904 && exec.pos.TXID < 9223372036854775807     // A-cursor: cursors are sums of header fields written by earlier syncs
   assumes 1 <= db.pageSize && db.pageSize <= 65536     // A-pagesize
   modifies $heap, $alloc, file_written, path_synced, path_handle, file_closed, pub_dst, pub_renamed, enc_pages, enc_last, pm_commitOff, pm_lastCommit, sync_off, sync_sz, sync_hdr
   at litestream.DB.openLTXFile#all assert [C03.tmp-only] $arg0 == tmpFilename && tmpFilename == concat(filename, ".tmp")
@@ -674,4 +674,70 @@ func litestream.(*DB).Pos(db) (pos, err)
 func litestream.NewLTXError(op, path, level, minTXID, maxTXID, err) (e)
   modifies $alloc
   ensures e != nil && fresh(e)
+
+// ---------------------------------------------------------------------------
+// C13: checkpoint policy. Ghosts count the checkpoint attempts a threshold evaluation issues.
+ghost ck_n Int
+ghost ck_mode Int
+ghost ck_restarted Bool
+ghost ckx_barrier Bool
+ghost ckx_sealed Bool
+ghost ckx_copied Bool
+ghost ckx_after Bool
+ghost c13_evals Int
+
+// calcWALSize(uint32(ps), uint32(n)) as the code computes it
+pred walsz(ps int, n int) = i64(32 + i64(i64(u32(24 + u32(ps))) * i64(u32(n))))
+pred effTrunc(tn int) = tn == 0 ? litestream.DefaultTruncatePageN : tn
+pred exceedsTrunc(ps int, tn int, sz int) = effTrunc(tn) > 0 && ps != 0 && sz >= walsz(ps, effTrunc(tn))
+
+func litestream.(*DB).verifyAndSyncWithExecutor(db, ctx, checkpointing, exec, maxSyncWALBytes) (result, err)
+  requires db != nil && exec != nil
+  modifies $heap, $alloc, file_written, path_synced, path_handle, file_closed, pub_dst, pub_renamed, enc_pages, enc_last, pm_commitOff, pm_lastCommit, sync_off, sync_sz, sync_hdr, v_off, v_s1, v_s2, v_wsize, v_lpm, v_lpmCalled, v_detected, v_detCalled, v_belief
+  at litestream.(*DB).verifyWithExecutor#1 reset v_lpmCalled = false
+  at litestream.(*DB).verifyWithExecutor#1 reset v_detCalled = false
+  at litestream.(*DB).sync#1 reset pub_renamed = false
+  at litestream.(*DB).sync#1 reset sync_hdr = false
+  at litestream.(*DB).sync#1 reset pm_commitOff = 0
+  at litestream.(*DB).sync#1 reset pm_lastCommit = false
+  ensures [C13.logical-size] err == nil && old(exec.state.lastSyncedWALOffset) != 0 ==> result.origWALSize == old(exec.state.lastSyncedWALOffset)
+  ensures err != nil ==> !result.synced
+
+func litestream.(*DB).checkpointWithExecutor(db, ctx, mode, exec) (walRestarted, err)
+  requires db != nil && exec != nil
+  modifies $heap, $alloc, file_written, path_synced, path_handle, file_closed, pub_dst, pub_renamed, enc_pages, enc_last, pm_commitOff, pm_lastCommit, sync_off, sync_sz, sync_hdr, v_off, v_s1, v_s2, v_wsize, v_lpm, v_lpmCalled, v_detected, v_detCalled, v_belief, tx_lockrow, ckx_barrier, ckx_sealed, ckx_copied, ckx_after
+  at litestream.(*DB).verifyAndSyncWithExecutor#1 reset ckx_after = false
+  at litestream.(*DB).verifyAndSyncWithExecutor#1 set ckx_copied = ($result1 == nil)
+  at sql.(*Tx).ExecContext#1 reset ckx_sealed = false
+  at sql.(*Tx).ExecContext#1 set ckx_barrier = ($result1 == nil)
+  at litestream.(*DB).verifyAndSyncWithExecutor#2 set ckx_sealed = ($result1 == nil)
+  at litestream.(*DB).execCheckpoint#1 assert [C02.copy-before] ckx_copied
+  at litestream.(*DB).execCheckpoint#1 assert [C02.seal] mode == litestream.CheckpointModePassive ==> ckx_barrier && ckx_sealed
+  at litestream.(*DB).verifyAndSyncWithExecutor#3 set ckx_after = ($result1 == nil)
+  at litestream.(*DB).verifyAndSyncWithExecutor#4 set ckx_after = ($result1 == nil)
+  at litestream.(*DB).sync#1 reset pub_renamed = false
+  at litestream.(*DB).sync#1 reset sync_hdr = false
+  at litestream.(*DB).sync#1 reset pm_commitOff = 0
+  at litestream.(*DB).sync#1 reset pm_lastCommit = false
+  at litestream.(*DB).sync#1 assert [C02.boundary-snapshot] $arg3.snapshotting && $arg3.offset == 32 && tx_lockrow[tx]
+  at litestream.(*DB).sync#1 set ckx_after = ($result1 == nil)
+  ensures [C13.reset] err == nil && exec.checkpointAttempted ==> !exec.state.syncedSinceCheckpoint
+  ensures [C02.copy-after] walRestarted ==> err == nil && ckx_after
+  ensures err != nil ==> !walRestarted
+
+func litestream.(*DB).checkpointIfNeeded(db, ctx, exec, origWALSize, newWALSize) (err)
+  requires db != nil && exec != nil
+  assumes 0 <= db.pageSize && db.pageSize <= 65536     // A-pagesize (0 = not yet initialised)
+  modifies $heap, $alloc, file_written, path_synced, path_handle, file_closed, pub_dst, pub_renamed, enc_pages, enc_last, pm_commitOff, pm_lastCommit, sync_off, sync_sz, sync_hdr, v_off, v_s1, v_s2, v_wsize, v_lpm, v_lpmCalled, v_detected, v_detCalled, v_belief, tx_lockrow, ckx_barrier, ckx_sealed, ckx_copied, ckx_after, ck_n, ck_mode, ck_restarted
+  at litestream.(*DB).checkpointWithExecutor#all set ck_n = ck_n + 1
+  at litestream.(*DB).checkpointWithExecutor#all set ck_mode = $arg1
+  at litestream.(*DB).checkpointWithExecutor#1 set ck_restarted = $result0
+  let ps = old(db.pageSize)
+  let tn = old(db.TruncatePageN)
+  let mn = old(db.MinCheckpointPageN)
+  ensures [C13.trigger-truncate] ps != 0 && exceedsTrunc(ps, tn, origWALSize) ==> ck_n > old(ck_n) && (err == nil ==> ck_mode == litestream.CheckpointModeTruncate || ck_restarted)
+  ensures [C13.trigger-min] ps != 0 && !exceedsTrunc(ps, tn, origWALSize) && newWALSize >= walsz(ps, mn) && newWALSize > walsz(ps, 1) ==> ck_n == old(ck_n) + 1 && ck_mode == litestream.CheckpointModePassive
+  ensures [C13.time] ps != 0 && !exceedsTrunc(ps, tn, origWALSize) && newWALSize < walsz(ps, mn) && ck_n > old(ck_n) ==> old(exec.state.syncedSinceCheckpoint) && old(db.CheckpointInterval) > 0 && newWALSize > walsz(ps, 1) && ck_n == old(ck_n) + 1 && ck_mode == litestream.CheckpointModePassive
+  ensures [C13.idle] 0 <= mn && mn < 4294967296 && !exceedsTrunc(ps, tn, origWALSize) && !old(exec.state.syncedSinceCheckpoint) && newWALSize <= walsz(ps, 1) ==> ck_n == old(ck_n)
+  ensures [C13.zero-pagesize] ps == 0 ==> ck_n == old(ck_n)
 */
